@@ -1,13 +1,14 @@
 package updog
 
 import (
+	"encoding/binary"
 	"fmt"
-	"math/bits"
 	"sort"
 	"strings"
 	"time"
 
 	"github.com/RoaringBitmap/roaring"
+	"github.com/cespare/xxhash/v2"
 )
 
 // Query describes a count query to execute on an index. updog allows you to run
@@ -212,7 +213,13 @@ func (e *ExprEqual) String() string {
 }
 
 func (e *ExprEqual) cacheKey() uint64 {
-	return getValueIndex(e.Column, e.Value)
+	buf := make([]byte, 0, len(e.Column)+len(e.Value)+2)
+	buf = append(buf, tagEqual)
+	buf = append(buf, e.Column...)
+	buf = append(buf, 0)
+	buf = append(buf, e.Value...)
+
+	return xxhash.Sum64(buf)
 }
 
 type ExprNot struct {
@@ -243,14 +250,30 @@ func (e *ExprNot) String() string {
 	return fmt.Sprintf("(NOT %s)", e.Expr.String())
 }
 
+// Cache keys are hashes of a tag byte followed by the node's payload: a comparison hashes
+// its column, a NUL byte and its value; an operator hashes the fixed-width keys of its
+// operands in order. Two expressions share a key only if they are the same expression
+// (up to collisions of the 64-bit hash).
 const (
-	maskNot = 0x87A9CD14CAEB50EB
-	maskAnd = 0xF9F1F5ADCB67A077
-	maskOr  = 0xBFB85A99B03E78E7
+	tagEqual = 'E'
+	tagNot   = 'N'
+	tagAnd   = 'A'
+	tagOr    = 'O'
 )
 
+func operatorCacheKey(tag byte, exprs ...Expression) uint64 {
+	buf := make([]byte, 1, 1+8*len(exprs))
+	buf[0] = tag
+
+	for _, e := range exprs {
+		buf = binary.BigEndian.AppendUint64(buf, e.cacheKey())
+	}
+
+	return xxhash.Sum64(buf)
+}
+
 func (e *ExprNot) cacheKey() uint64 {
-	return bits.RotateLeft64(e.Expr.cacheKey(), 1) ^ maskNot
+	return operatorCacheKey(tagNot, e.Expr)
 }
 
 type ExprAnd struct {
@@ -301,12 +324,7 @@ func (e *ExprAnd) String() string {
 }
 
 func (e *ExprAnd) cacheKey() uint64 {
-	key := uint64(maskAnd)
-	for _, e := range e.Exprs {
-		key = key ^ bits.RotateLeft64(e.cacheKey(), 1)
-	}
-
-	return key
+	return operatorCacheKey(tagAnd, e.Exprs...)
 }
 
 type ExprOr struct {
@@ -357,10 +375,5 @@ func (e *ExprOr) String() string {
 }
 
 func (e *ExprOr) cacheKey() uint64 {
-	key := uint64(maskOr)
-	for _, e := range e.Exprs {
-		key = key ^ bits.RotateLeft64(e.cacheKey(), 1)
-	}
-
-	return key
+	return operatorCacheKey(tagOr, e.Exprs...)
 }
